@@ -247,7 +247,8 @@ def run(ctx):
     # the continuation line's indentation is spelled with tabs vs the column-exact spaces, inside quotes and list items too
     CONT = ['[t](/u\n{L}"title") z', "[t](\n{L}/u\n{L}'ti') z", "![i](/s\n{L}(t)) z", '[r]: /u\n{L}"title"\n\n[r]', "[r]:\n{L}/u\n{L}'t'\n\n[r]", "`a\n{L}b` z",
             "*a\n{L}b* z", "[t\n{L}t2](/u) z", 'a <b\n{L}c="d"> z', "[t][r\n{L}s]\n\n[r s]: /u", "a\\\n{L}b", "a  \n{L}b", "**a\n{L}**b**", '[t](/u "a\n{L}b") z',
-            "![a\n{L}b](/s\n{L}'t')", '[t](<u>\n{L}"x"\n{L}) z', "[a](/1\n{L}'p') [b](/2\n{L}(q))"]
+            "![a\n{L}b](/s\n{L}'t')", "[r]:\n{L}* 'title'\n\n[r]", "[r]:\n{L}> 'q'\n\n[r]", "[r]:\n{L}# 'h'\n\n[r]", "[r]:\n{L}1. 'o'\n\n[r]", "[r]: /u\n{L}'- t'\n\n[r]",
+            "a\n{L}_b_ z", "a\n{L}**[x](u)** z", "a\n{L}~~(x)~~ z", "a\n{L}*`c`* z", "a\n{L}__b__\n{L}*c*", "a \"\n{L}'q' b\"", '[t](<u>\n{L}"x"\n{L}) z', "[a](/1\n{L}'p') [b](/2\n{L}(q))"]
     runs = ["\t", " \t", "  \t", "   \t", "\t\t", "\t ", " \t ", "\t  \t", "    \t", "  \t  "]
     for k in range(ctx.scale(30000, 800000)):
         tmpl = rng.choice(CONT)
